@@ -294,5 +294,16 @@ def main(argv):
     prop = argv[1]
     if argv[2] == "--replay":
         return replay_file(prop, argv[3])
+    if argv[2] == "--run":  # debugging aid: one run index of a tier, in this process
+        spec = load_props()[prop]
+        engine = _engine(spec["engine"])
+        tier = argv[4] if len(argv) > 4 else "quick"
+        verif_seed = int(os.environ.get("VERIF_SEED", core.DEFAULT_SEEDS[tier]))
+        run_cfg = dict(spec.get("run_cfg", {}))
+        run_cfg["quarantine"] = [f["trigger"] for f in load_findings(prop) if f["status"] == "open" and f.get("trigger")]
+        run_cfg["verbose"] = True
+        res = engine.generate_and_run(H(verif_seed, prop, int(argv[3])), prop, tier, run_cfg)
+        print(json.dumps({"violation": res.violation, "steps": res.steps, "stats": dict(res.stats)}, indent=1, default=repr)[:6000])
+        return 1 if res.violation else 0
     tier = argv[2]
     return run_check(prop, tier)
